@@ -438,7 +438,7 @@ pub fn decode(bytes: &[u8]) -> Result<Decoded, String> {
 
     // ---- other streams ----------------------------------------------------------
     for (raw, content) in d.entries.iter() {
-        if raw.starts_with('\u{5}') {
+        if ["\u{5}SummaryInformation", "\u{5}DocumentSummaryInformation", "\u{5}DigitalSignature", "\u{5}MsiDigitalSignatureEx"].contains(&raw.as_str()) {
             continue;
         }
         let (name, is_table) = unmangle(raw);
